@@ -480,9 +480,13 @@ func ruleR04w(c *Ctx, r *Report) {
 			b, ok := leaf.(*ssa.BinOp)
 			okShape := false
 			if ok && b.Op == token.EQL {
-				fv, _ := fieldOfLoad(canon(b.X))
-				k, isK := constInt(b.Y)
-				okShape = fv != nil && fv.Name() == "Code" && isK && k == 0
+				for _, xy := range [][2]ssa.Value{{b.X, b.Y}, {b.Y, b.X}} { // == is symmetric
+					fv, _ := fieldOfLoad(canon(xy[0]))
+					k, isK := constInt(xy[1])
+					if fv != nil && fv.Name() == "Code" && isK && k == 0 {
+						okShape = true
+					}
+				}
 			}
 			if !okShape {
 				bad = fmt.Sprintf("the answer returned at %s is not `decoded.Code == multihash.IDENTITY` alone", c.Pos(ret.Pos()))
